@@ -193,7 +193,25 @@ public:
     } else if (is_top() || other.is_bottom()) {
       return false;
     } else {
-      return m_packs <= other.m_packs;
+      // The union-find comparison only answers yes if the packs of *this
+      // refine the packs of other. Joins and widenings split packs, so
+      // their operands were not included in their results and the
+      // fixpoint iterators never saw new <= old. Compare the meaning
+      // instead: *this is included in other iff what *this knows about
+      // the variables of each pack of other entails that pack.
+      pack_vars_t other_packs_vars = other.m_packs.equiv_classes_elems();
+      for (auto const &kv : other_packs_vars) {
+        const pack_t &other_pack = other.m_packs.get_equiv_class(kv.first);
+        if (other_pack.get_absval()->is_top()) {
+          continue;
+        }
+        variable_vector_t vars(kv.second.begin(), kv.second.end());
+        base_domain_t left = merge(vars);
+        if (!(left <= *(other_pack.get_absval()))) {
+          return false;
+        }
+      }
+      return true;
     }
   }
 
